@@ -17,8 +17,10 @@ type Mutex struct {
 	held int32
 }
 
+//go:norace
 func (m *Mutex) key() uintptr { return uintptr(unsafe.Pointer(m)) }
 
+//go:norace
 func (m *Mutex) Lock() {
 	k := simrt.K
 	if k == nil {
@@ -40,8 +42,12 @@ func (m *Mutex) Lock() {
 		k.Block(simrt.KLock, m.key())
 	}
 	m.held = 1
+	if simrt.RaceMode {
+		m.mu.Lock() // uncontended: gives the race detector the library's own happens-before edges
+	}
 }
 
+//go:norace
 func (m *Mutex) TryLock() bool {
 	k := simrt.K
 	if k == nil {
@@ -54,9 +60,13 @@ func (m *Mutex) TryLock() bool {
 		return false
 	}
 	m.held = 1
+	if simrt.RaceMode && simrt.Active() {
+		m.mu.Lock()
+	}
 	return true
 }
 
+//go:norace
 func (m *Mutex) Unlock() {
 	k := simrt.K
 	if k == nil {
@@ -72,6 +82,9 @@ func (m *Mutex) Unlock() {
 		}
 		return
 	}
+	if simrt.RaceMode && simrt.Active() {
+		m.mu.Unlock()
+	}
 	m.held = 0
 	if simrt.Active() {
 		k.Notify(m.key())
@@ -86,8 +99,10 @@ type RWMutex struct {
 	readers int32
 }
 
+//go:norace
 func (m *RWMutex) key() uintptr { return uintptr(unsafe.Pointer(m)) }
 
+//go:norace
 func (m *RWMutex) Lock() {
 	k := simrt.K
 	if k == nil {
@@ -109,8 +124,12 @@ func (m *RWMutex) Lock() {
 		k.Block(simrt.KLock, m.key())
 	}
 	m.writer = 1
+	if simrt.RaceMode {
+		m.mu.Lock()
+	}
 }
 
+//go:norace
 func (m *RWMutex) TryLock() bool {
 	k := simrt.K
 	if k == nil {
@@ -126,6 +145,7 @@ func (m *RWMutex) TryLock() bool {
 	return true
 }
 
+//go:norace
 func (m *RWMutex) Unlock() {
 	k := simrt.K
 	if k == nil {
@@ -138,6 +158,9 @@ func (m *RWMutex) Unlock() {
 		}
 		return
 	}
+	if simrt.RaceMode && simrt.Active() {
+		m.mu.Unlock()
+	}
 	m.writer = 0
 	if simrt.Active() {
 		k.Notify(m.key())
@@ -145,6 +168,7 @@ func (m *RWMutex) Unlock() {
 	}
 }
 
+//go:norace
 func (m *RWMutex) RLock() {
 	k := simrt.K
 	if k == nil {
@@ -166,8 +190,12 @@ func (m *RWMutex) RLock() {
 		k.Block(simrt.KRLock, m.key())
 	}
 	m.readers++
+	if simrt.RaceMode {
+		m.mu.RLock()
+	}
 }
 
+//go:norace
 func (m *RWMutex) TryRLock() bool {
 	k := simrt.K
 	if k == nil {
@@ -180,6 +208,7 @@ func (m *RWMutex) TryRLock() bool {
 	return true
 }
 
+//go:norace
 func (m *RWMutex) RUnlock() {
 	k := simrt.K
 	if k == nil {
@@ -191,6 +220,9 @@ func (m *RWMutex) RUnlock() {
 			k.Fatal("sync: RUnlock of unlocked RWMutex")
 		}
 		return
+	}
+	if simrt.RaceMode && simrt.Active() {
+		m.mu.RUnlock()
 	}
 	m.readers--
 	if simrt.Active() {
@@ -205,6 +237,7 @@ type Once struct {
 	m    Mutex
 }
 
+//go:norace
 func (o *Once) Do(f func()) {
 	if atomic.LoadUint32(&o.done) == 1 {
 		return
@@ -224,12 +257,14 @@ type Map struct {
 	order []interface{}
 }
 
+//go:norace
 func (m *Map) note(key interface{}) {
 	m.mu.Lock()
 	m.order = append(m.order, key)
 	m.mu.Unlock()
 }
 
+//go:norace
 func (m *Map) forget(key interface{}) {
 	m.mu.Lock()
 	for i, k := range m.order {
@@ -241,11 +276,13 @@ func (m *Map) forget(key interface{}) {
 	m.mu.Unlock()
 }
 
+//go:norace
 func (m *Map) Load(key interface{}) (interface{}, bool) {
 	simrt.Yield(simrt.KMap, 0)
 	return m.m.Load(key)
 }
 
+//go:norace
 func (m *Map) Store(key, value interface{}) {
 	simrt.Yield(simrt.KMap, 0)
 	if _, loaded := m.m.Swap(key, value); !loaded {
@@ -253,6 +290,7 @@ func (m *Map) Store(key, value interface{}) {
 	}
 }
 
+//go:norace
 func (m *Map) LoadOrStore(key, value interface{}) (interface{}, bool) {
 	simrt.Yield(simrt.KMap, 0)
 	a, loaded := m.m.LoadOrStore(key, value)
@@ -262,6 +300,7 @@ func (m *Map) LoadOrStore(key, value interface{}) (interface{}, bool) {
 	return a, loaded
 }
 
+//go:norace
 func (m *Map) LoadAndDelete(key interface{}) (interface{}, bool) {
 	simrt.Yield(simrt.KMap, 0)
 	v, loaded := m.m.LoadAndDelete(key)
@@ -271,10 +310,12 @@ func (m *Map) LoadAndDelete(key interface{}) (interface{}, bool) {
 	return v, loaded
 }
 
+//go:norace
 func (m *Map) Delete(key interface{}) {
 	m.LoadAndDelete(key)
 }
 
+//go:norace
 func (m *Map) Swap(key, value interface{}) (interface{}, bool) {
 	simrt.Yield(simrt.KMap, 0)
 	p, loaded := m.m.Swap(key, value)
@@ -284,11 +325,13 @@ func (m *Map) Swap(key, value interface{}) (interface{}, bool) {
 	return p, loaded
 }
 
+//go:norace
 func (m *Map) CompareAndSwap(key, old, new interface{}) bool {
 	simrt.Yield(simrt.KMap, 0)
 	return m.m.CompareAndSwap(key, old, new)
 }
 
+//go:norace
 func (m *Map) CompareAndDelete(key, old interface{}) bool {
 	simrt.Yield(simrt.KMap, 0)
 	ok := m.m.CompareAndDelete(key, old)
@@ -298,6 +341,7 @@ func (m *Map) CompareAndDelete(key, old interface{}) bool {
 	return ok
 }
 
+//go:norace
 func (m *Map) Range(f func(key, value interface{}) bool) {
 	simrt.Yield(simrt.KMap, 0)
 	m.mu.Lock()
@@ -322,6 +366,7 @@ func (m *Map) Range(f func(key, value interface{}) bool) {
 	}
 }
 
+//go:norace
 func (m *Map) Clear() {
 	m.m.Range(func(k, _ interface{}) bool { m.m.Delete(k); return true })
 	m.mu.Lock()
